@@ -261,7 +261,9 @@ class Inliner:
         locals_ = set(rebound)
         rename = {}
         for pn, e in actual.items():
-            if _simple(e) and pn not in rebound:
+            # names and constants are substituted; an attribute chain is evaluated once, up front, as the call did
+            # (the callee may store to that attribute before it reads the parameter)
+            if isinstance(e, (ast.Name, ast.Constant)) and pn not in rebound:
                 mapping[pn] = e
             else:
                 locals_.add(pn)
@@ -1198,7 +1200,7 @@ def loops_from_quantifiers(func):
             neg = not neg
             t = t.operand
         if isinstance(t, ast.Call) and isinstance(t.func, ast.Name) and t.func.id in ("any", "all") and len(t.args) == 1 and not t.keywords \
-                and isinstance(t.args[0], (ast.GeneratorExp, ast.ListComp)) and len(t.args[0].generators) == 1 and not t.args[0].generators[0].is_async:
+                and isinstance(t.args[0], ast.GeneratorExp) and len(t.args[0].generators) == 1 and not t.args[0].generators[0].is_async:
             return t.func.id, neg, t.args[0]
         return None
     if not any(isinstance(n, ast.If) and quant(n.test) for n in walk_own(func.node)):
